@@ -438,6 +438,7 @@ func exec10(tr *Trace10, probe func(string)) (string, *fail) {
 			return "skip:number system > 1", nil
 		}
 		row := drawUPCEAN(tr.Sym, full)
+		var multiMisread *fail
 		o := read(newReader(tr.Sym), row, tr.Scale)
 		ok := verifies(tr.Sym, full)
 		carried := strOf(full)
@@ -460,10 +461,18 @@ func exec10(tr *Trace10, probe func(string)) (string, *fail) {
 				if !ok && mo.text == carried {
 					return "", &fail{"multi/accepts-failed-check", fmt.Sprintf("MultiFormatUPCEANReader returned the carried number %s although its check digit fails", carried)}
 				}
+				if !ok {
+					probe(fmt.Sprintf("probe.multi_format_misread_that_verifies.%s->%s", tr.Sym, fsym))
+					multiMisread = &fail{"multi/misread-verifies/" + tr.Sym + "->" + fsym, fmt.Sprintf("MultiFormatUPCEANReader read a %s symbol carrying %s (check fails; substitution pos %d -> %d, scale %d) as the %s number %q, which verifies", tr.Sym, carried, tr.Pos, tr.Repl, tr.Scale, fsym, mo.text)}
+				}
 				probe("probe.multi_format_result_verified")
 			}
 		}
-		return judgeUPCEAN(tr, o, carried, ok, probe)
+		out, f := judgeUPCEAN(tr, o, carried, ok, probe)
+		if f == nil && multiMisread != nil {
+			return out, multiMisread
+		}
+		return out, f
 	case "addon":
 		base := digitsOf(tr.Content)
 		ad := digitsOf(tr.Addon)
@@ -563,13 +572,13 @@ func judgeUPCEAN(tr *Trace10, o readOut, carried string, ok bool, probe func(str
 		if tr.Scale > 0 && o.text != carried {
 			// Image path only (row-reversal retry + tolerant pattern matching):
 			// the reader produced some OTHER number that does verify. No
-			// checksum can exclude that (a misread garbage string passes mod 10
-			// one time in ten); whether a located symbol may ever be misread is
-			// C09's statement, which this technique does not decide. Counted,
-			// never reported under C10. At scale 0 (DecodeRow, exact widths,
-			// forward only) the strict rule below applies.
-			probe("probe.image_path_misread_that_verifies(C09_territory)")
-			return "ok:misread that verifies", nil
+			// checksum can exclude that; it is a misread of a located symbol.
+			// Reported under its own class, keyed by symbology: the one
+			// symbology where the unchanged tree does this (UPC-E) is a listed
+			// known finding, any other is a violation. At scale 0 (DecodeRow,
+			// exact widths, forward only) the strict rule below applies.
+			probe("probe.image_path_misread_that_verifies." + tr.Sym)
+			return "", &fail{"reader/misread-verifies", what + fmt.Sprintf(": the carried number fails the check; the image path (row reversal, tolerant matching) returned the different number %q, which verifies", o.text)}
 		}
 		return "", &fail{"reader/accepts-failed-check", what + fmt.Sprintf(": the carried number fails the check, yet the reader returned %q", o.text)}
 	}
@@ -905,6 +914,12 @@ func C10() *kit.Spec {
 			var hist []*Trace10
 			do := func(tr *Trace10, hash bool) bool {
 				out, f := exec10(tr, probe)
+				if f != nil && strings.Contains(f.class, "misread-verifies") {
+					// a misread of a located symbol: reported (known finding or
+					// violation, by class), the job goes on
+					report10(c, tr, f)
+					f = nil
+				}
 				if f != nil && (tr.Kind == "reader" || tr.Kind == "addon" || tr.Kind == "c128" || tr.Kind == "c93") {
 					reportWithHistory(c, tr, f, hist)
 					return false
